@@ -332,5 +332,8 @@ class BaseWallet(object):
         :param path: bip32 path
         :return: child node
         """
+        if len(path.split("/")) > 6:
+            # Bip32Path models five levels only and ignores the rest
+            raise ValueError("paths deeper than 5 levels are not supported")
         path = Bip32Path.parse(s=path)
         return self.master.derive_path(index_list=path.to_list())
